@@ -226,12 +226,20 @@ func listen(addr, group, id string) *sse {
 		ready <- true
 		sc := bufio.NewScanner(res.Body)
 		sc.Buffer(make([]byte, 1<<20), 1<<28)
+		// event-stream rules: an event ends at a blank line; its data is the data lines joined by newlines
+		var data []string
 		for sc.Scan() {
 			line := sc.Text()
-			if strings.HasPrefix(line, "data: ") {
+			switch {
+			case strings.HasPrefix(line, "data: "):
+				data = append(data, strings.TrimPrefix(line, "data: "))
+			case strings.HasPrefix(line, "data:"):
+				data = append(data, strings.TrimPrefix(line, "data:"))
+			case line == "" && len(data) > 0:
 				l.mu.Lock()
-				l.msgs = append(l.msgs, strings.TrimPrefix(line, "data: "))
+				l.msgs = append(l.msgs, strings.Join(data, "\n"))
 				l.mu.Unlock()
+				data = nil
 			}
 		}
 	}()
